@@ -33,6 +33,21 @@ type Table struct {
 }
 
 func genTable(rng *rand.Rand) Table {
+	if rng.Intn(60) == 0 {
+		// A long acyclic chain (k0 is text, k_i refers to k_{i-1}): every field
+		// is resolvable however many properties its resolution passes through.
+		n := 90 + rng.Intn(420)
+		t := Table{Version: "9.9", GroupID: "org.g"}
+		t.Props = append(t.Props, [2]string{"k0", pick(rng, []string{"1.0", "z", "${project.version}"})})
+		for i := 1; i < n; i++ {
+			t.Props = append(t.Props, [2]string{fmt.Sprintf("k%d", i), pick(rng, []string{"", "x"}) + fmt.Sprintf("${k%d}", i-1)})
+		}
+		rng.Shuffle(len(t.Props), func(a, b int) { t.Props[a], t.Props[b] = t.Props[b], t.Props[a] })
+		for i := 0; i < 5; i++ {
+			t.Fields = append(t.Fields, fmt.Sprintf("${k%d}", n-1-rng.Intn(3)))
+		}
+		return t
+	}
 	n := 1 + rng.Intn(8)
 	names := make([]string, n)
 	for i := range names {
